@@ -142,11 +142,11 @@ def cases(tier, seed):
     for name, term in list(cat.items()) + list(nest.items()):
         depth1 = "(" not in name
         for b in batches:
-            if not depth1 and tier == "quick" and b:
+            if not depth1 and (len(b) == 2 or (tier == "quick" and b)):
                 continue
             lvl = (2 if depth1 else 0) if tier == "quick" else (2 if depth1 else 1)
             if len(b) == 2:
-                lvl = min(lvl, 1) if depth1 else 0
+                lvl = 1
             for dbg in (True, False):
                 if not depth1 and tier == "quick" and not dbg:
                     continue
